@@ -1,6 +1,8 @@
 package main
 
 import (
+	"regexp"
+	"strconv"
 	"fmt"
 	"go/constant"
 	"go/token"
@@ -341,6 +343,11 @@ func (f *FnVC) block(b *ssa.BasicBlock) {
 		env := f.loopEnv(l2, f.st, subst)
 		saved := f.reach[b.Index]
 		f.reach[b.Index] = ec
+		for _, ia := range l2.spec.IterApply {
+			envA := f.loopEnv(l2, f.st, subst)
+			envA.old = l2.headState
+			f.applyLemma(envA, HintClause{Where: fmt.Sprintf("loop %d iteration", l2.ord), C: ia, Apply: true}, s.Instrs[0].Pos())
+		}
 		for _, inv := range l2.spec.Invariants {
 			f.oblige("inv.step", fmt.Sprintf("loop %d invariant %s", l2.ord, inv.Text), f.trBool(env, inv.E), s.Instrs[0].Pos())
 		}
@@ -756,14 +763,14 @@ func (f *FnVC) binop(x *ssa.BinOp) {
 	case token.QUO:
 		if isReal {
 			// IEEE: x/0 = ±Inf, not a panic. Rounding ignored.
-			t = "(/ " + a.T + " " + b.T + ")"
+			t = "(" + f.rdivSym(b.T) + " " + a.T + " " + b.T + ")"
 		} else {
 			f.oblige("panic.div", "division by zero "+f.srcText(x.Y), "(not (= "+b.T+" 0))", x.Pos())
-			t = f.wrap("(tdiv "+a.T+" "+b.T+")", ty)
+			t = f.wrap("("+f.divSym("tdiv", b.T)+" "+a.T+" "+b.T+")", ty)
 		}
 	case token.REM:
 		f.oblige("panic.div", "division by zero "+f.srcText(x.Y), "(not (= "+b.T+" 0))", x.Pos())
-		t = "(tmod " + a.T + " " + b.T + ")"
+		t = "(" + f.divSym("tmod", b.T) + " " + a.T + " " + b.T + ")"
 	case token.SHL:
 		if c, isC := x.Y.(*ssa.Const); isC {
 			k, _ := constBig(c.Value)
@@ -864,6 +871,33 @@ func (f *FnVC) binop(x *ssa.BinOp) {
 	_ = isInt
 	f.define(x, t)
 }
+
+// divSym: the symbol for integer division / remainder. In a function whose contract says `opaque division`, a
+// non-constant divisor gives an uninterpreted function: nonlinear integer arithmetic is kept out of the function's
+// queries, and what is needed about such quotients is supplied by lemmas (proved elsewhere with the real meaning).
+func (f *FnVC) divSym(sym, divisor string) string {
+	if f.c == nil || !f.c.OpaqueDiv {
+		return sym
+	}
+	if _, err := strconv.ParseInt(strings.TrimSpace(divisor), 10, 64); err == nil {
+		return sym
+	}
+	return f.declFun(sym+"u", []string{"Int", "Int"}, "Int")
+}
+
+// rdivSym: real division; by a non-constant divisor it is uninterpreted under `opaque division` (see divSym).
+func (f *FnVC) rdivSym(divisor string) string {
+	if f.c == nil || !f.c.OpaqueDiv {
+		return "/"
+	}
+	d := strings.TrimSpace(divisor)
+	if strings.HasPrefix(d, "(/ ") || regexpNumeral.MatchString(d) {
+		return "/"
+	}
+	return f.declFun("rdivu", []string{"Real", "Real"}, "Real")
+}
+
+var regexpNumeral = regexp.MustCompile(`^-?[0-9]+(\.[0-9]+)?$`)
 
 func (f *FnVC) rangedUF(fn, a, b string, ty types.Type) string {
 	tt := f.freshConst(fn, "Int")
@@ -1593,6 +1627,16 @@ func (f *FnVC) pointEnv(at ssa.Instruction) *Env {
 	env.st = f.st
 	env.old = f.root
 	env.oldVars = f.paramTV
+	// innermost loop around the program point
+	var inner *loopInfo
+	for _, li := range f.loops {
+		if li.blocks[at.Block().Index] && li.headState != nil && (inner == nil || len(li.blocks) < len(inner.blocks)) {
+			inner = li
+		}
+	}
+	if inner != nil {
+		env.iterOld = inner.headState
+	}
 	names := map[string]ssa.Value{}
 	addrs := map[string]ssa.Value{}
 	scan := func(b *ssa.BasicBlock, upto ssa.Instruction) {
@@ -1604,8 +1648,10 @@ func (f *FnVC) pointEnv(at ssa.Instruction) *Env {
 					started = true
 				} else {
 					// DebugRefs directly following `upto` describe its result (e.g. the assignment target)
-					if d, ok := in.(*ssa.DebugRef); ok && d.X == upto.(ssa.Value) {
-						goto use
+					if uv, isVal := upto.(ssa.Value); isVal {
+						if d, ok := in.(*ssa.DebugRef); ok && d.X == uv {
+							goto use
+						}
 					}
 					continue
 				}
@@ -1641,11 +1687,8 @@ func (f *FnVC) pointEnv(at ssa.Instruction) *Env {
 			}
 		}
 	}
-	if _, isVal := at.(ssa.Value); isVal {
-		scan(at.Block(), at)
-	} else {
-		scan(at.Block(), nil)
-	}
+	// names as they stand right AFTER `at`: what follows it in the block is not visible
+	scan(at.Block(), at)
 	for b := at.Block().Idom(); b != nil; b = b.Idom() {
 		scan(b, nil)
 	}
